@@ -17,6 +17,10 @@ func (eng *Engine) verifyFunc(key string) {
 	}
 	fc := eng.contracts.Funcs[key]
 	fx := &FnExec{eng: eng, fn: fn, fc: fc, maxPath: 20000}
+	fx.merge = os.Getenv("GOVC_MERGE") != "0"
+	if fc != nil && fc.NoMerge {
+		fx.merge = false
+	}
 	if fc != nil {
 		seen := map[string]bool{}
 		for _, cs := range [][]*Clause{fc.Requires, fc.Ensures, fc.Panics, fc.Invs} {
